@@ -57,7 +57,7 @@ class C28(Check):
     pid = "C28"
     props_file = "Props/C28.v"
     corr_imports = ["Dev.Serial", "Corr.C28"]
-    technique = "Coq invariant proof over all histories of application writes and handshake timings + differential correspondence with serial.Serial (real pipes, the real EL6002 terminal class of terminals.py with BOTH channels in use in one process image)"
+    technique = "Coq invariant proof over all histories of application writes and handshake timings; channel independence proved on the layout REGENERATED from terminals.py (Generated/SerialLayout.v) + differential correspondence with serial.Serial (real pipes, the real EL6002 terminal class of terminals.py with BOTH channels in use in one process image)"
     trusted = ["the EL6002 handshake as modelled in Dev/Serial.v `react` (terminal never toggles receive_request before the previous chunk was acknowledged, "
                "does not hand over data before initialisation completed)", "os.pipe2/os.read semantics for non-blocking pipes"]
     assumptions = ["every cyclic frame comes back (frame loss is C22/C30 territory)", "the application never has more than a pipe buffer of unsent data"]
@@ -202,6 +202,37 @@ class C28(Check):
         finally:
             main.close()
             other.close()
+
+    def extra_checks(self):
+        """the translator of the channel layout (harness/gen_consts.py -> Generated/SerialLayout.v, about which the independence theorems
+        are proved) against the live descriptor objects of terminals.py"""
+        import struct
+        from . import gen_consts
+        import ebpfcat.terminals as terminals
+        bad, n = [], 0
+        if not gen_consts.LAYOUT:
+            return [("serial-layout-translation", False, "the layout was not regenerated in this run")]
+        for tname, lay in gen_consts.LAYOUT.items():
+            cls = getattr(terminals, tname)
+            term = cls.__new__(cls)
+            for cname, sm3, sm2 in lay["chans"]:
+                ch = getattr(term, cname)
+                for name, sm, pos, bit, width in lay["descs"]:
+                    n += 1
+                    pv = getattr(ch, name)
+                    off = sm3 if sm == 3 else sm2
+                    live = (pv.sm.value, pv.position, pv.size if isinstance(pv.size, int) else -1,
+                            1 if isinstance(pv.size, int) else struct.calcsize("<" + pv.size))
+                    if live != (sm, pos + off, bit, width):
+                        bad.append(f"{tname}.{cname}.{name}: live object (sm, position, bit, width) = {live}, generated {(sm, pos + off, bit, width)}")
+            # nothing the translator does not know about
+            live_names = {k for c in cls.Channel.__mro__ for k, v in c.__dict__.items() if type(v).__name__ == "PacketDesc"}
+            if live_names != {d[0] for d in lay["descs"]}:
+                bad.append(f"{tname}.Channel: live descriptors {sorted(live_names)}, generated {sorted(d[0] for d in lay['descs'])}")
+            live_ch = {k for k, v in cls.__dict__.items() if type(v).__name__ == "StructDesc"}
+            if live_ch != {c[0] for c in lay["chans"]}:
+                bad.append(f"{tname}: live channels {sorted(live_ch)}, generated {sorted(c[0] for c in lay['chans'])}")
+        return [("serial-layout-translation", not bad, f"{n} process variables of EL6002 / EL6022 channels: generated layout equals the live descriptor objects; {bad[:2]}")]
 
     def model_term(self, case):
         evs = []
